@@ -325,6 +325,85 @@ def extractor_composable(name, second, ctx):
         return False
 
 
+# ---- generator-fed extractors ---------------------------------------------------------------------
+
+class CountingDicts(object):
+    """A one-shot generator of N dicts that counts how many it has handed out."""
+
+    def __init__(self, n):
+        self.n = n
+        self.pulled = 0
+
+    def gen(self):
+        for i in range(self.n):
+            self.pulled += 1
+            yield dict(zip(C.HEADERS['g'], C.row('g', i)))
+
+
+GENSOURCES = {
+    # name: (factory(counting dicts) -> view, declared read-ahead)
+    'fromdicts(generator,sample=3)': (lambda cd: etl.fromdicts(cd.gen(), sample=3), 3),
+    'fromdicts(generator,sample=1)': (lambda cd: etl.fromdicts(cd.gen(), sample=1), 1),
+    'fromdicts(generator,header)': (lambda cd: etl.fromdicts(cd.gen(), header=['k', 'v', 'x']), 0),
+    'fromdicts(generator,header,sample=2)': (lambda cd: etl.fromdicts(cd.gen(), header=['k', 'v', 'x'], sample=2), 2),
+}
+
+
+def check_gensource(name, second, ctx, ks, consumers):
+    bad = []
+    nontrivial = evals = 0
+    mk, ahead = GENSOURCES[name]
+    for consumer in consumers:
+        for k in ks:
+            res = []
+            for N in (N1, N2):
+                cd = CountingDicts(N)
+                try:
+                    v = mk(cd)
+                    if second is not None:
+                        o = C.BY_NAME[second]
+                        v = o.build([v if i == o.stream else CountingTable(kd, 3) for i, kd in enumerate(o.kinds)], ctx)
+                except Exception as e:
+                    bad.append(('raises at construction', {'consumer': consumer, 'k': k, 'exc': type(e).__name__}))
+                    break
+                evals += 1
+                if cd.pulled > ahead:
+                    bad.append(('data read at construction', {'consumer': consumer, 'k': k, 'N': N, 'pulled': cd.pulled}))
+                    break
+                try:
+                    got = consume(v, consumer, k)
+                except Exception as e:
+                    bad.append(('raises on counting source', {'consumer': consumer, 'k': k, 'exc': type(e).__name__}))
+                    break
+                res.append((cd.pulled, got))
+            if len(res) < 2:
+                continue
+            (p1, g1), (p2, g2) = res
+            if second is not None and g1 < k + 1:
+                continue
+            if k >= 1:
+                nontrivial += 1
+            if p1 != p2:
+                bad.append(('pull count depends on source length', {'consumer': consumer, 'k': k,
+                                                                     'pulls': {'N=%d' % N1: p1, 'N=%d' % N2: p2}}))
+            elif second is None and p1 > k + ahead + SLACK:
+                bad.append(('pulls exceed k + constant', {'consumer': consumer, 'k': k, 'pulled': p1}))
+    return bad, nontrivial, evals
+
+
+def gensource_composable(name, second, ctx):
+    try:
+        o = C.BY_NAME[second]
+        if 'container' in o.tags or len(o.kinds) != 1:
+            return False
+        v = GENSOURCES[name][0](CountingDicts(6))
+        for _ in itertools.islice(o.build([v], ctx), 12):
+            pass
+        return True
+    except Exception:
+        return False
+
+
 # ---- work items ---------------------------------------------------------------------------------
 
 def _reps():
@@ -350,6 +429,8 @@ def items(tier, seed):
         out.append({'kind': 'extract', 'name': nm})
     for o in construct_ops():
         out.append({'kind': 'construct', 'first': o.name})
+    for nm in GENSOURCES:
+        out.append({'kind': 'gensource', 'name': nm})
     if tier == 'thorough':
         reps = _reps()
         for a in reps:
@@ -360,7 +441,7 @@ def items(tier, seed):
 
 
 def cost(item):
-    return {'pipe': 5, 'extract': 20, 'pipe3': 1, 'construct': 2}[item['kind']]
+    return {'pipe': 5, 'extract': 20, 'pipe3': 1, 'construct': 2, 'gensource': 10}[item['kind']]
 
 
 def bounds(tier, seed):
@@ -413,6 +494,27 @@ def run_item(item, acc):
             acc.counters['pipelines:depth2'] += 1
             acc.outcome((first, o2.name, nt))
             _report(acc, names, bad)
+    elif item['kind'] == 'gensource':
+        name = item['name']
+        bad, nt, ev = check_gensource(name, None, ctx, KS, ('islice', 'head', 'look', 'slice'))
+        acc.evals += ev
+        acc.transitions += ev
+        acc.states += 1
+        acc.nontrivial += nt
+        acc.counters['generator sources'] += 1
+        acc.outcome((name, len(bad)))
+        _report(acc, [name, None], bad, kind='gensource')
+        for o2 in _STREAM:
+            if not gensource_composable(name, o2.name, ctx):
+                continue
+            bad, nt, ev = check_gensource(name, o2.name, ctx, (0, 1, 3, 8), ('islice',))
+            acc.evals += ev
+            acc.transitions += ev
+            acc.states += 1
+            acc.nontrivial += nt
+            acc.counters['pipelines:generator source+op'] += 1
+            acc.outcome((name, o2.name, nt))
+            _report(acc, [name, o2.name], bad, kind='gensource')
     elif item['kind'] == 'construct':
         first = item['first']
         bad = check_construction([first], ctx)
@@ -489,6 +591,9 @@ def replay(case):
     consumer = case.get('consumer', 'islice')
     if case.get('consumer') is None and 'N' in case and case.get('k', 0) == 0 and C.BY_NAME[case['names'][0]].stream is None:
         bad = check_construction(case['names'], ctx)
+        return (None, bad, 'laziness violated') if bad else None
+    if case['kind'] == 'gensource':
+        bad, _, _ = check_gensource(case['names'][0], case['names'][1], ctx, (k,), (consumer,))
         return (None, bad, 'laziness violated') if bad else None
     if case['kind'] == 'extract':
         name, second = case['names'][0], case['names'][1]
